@@ -6,6 +6,8 @@ TECH = "contract-based deductive verification: VCs generated from the real funct
 CLAIMS = {
  "C01": ("Contracts on the real combo_runner, parse_combos, check_for_duplicates, combo_runner_core (grid case, cut into five regions), _run_linear_sequential, _run_linear_executor, _submit, _get_result and _unflatten are discharged for all grids: the ghost call log is extended by exactly one call per grid point with kwargs = zip(names, point) + constants (nothing else), in grid order or in the order PermOf(seed, n) when shuffled; results are fetched by submission index for every executor convention (Pool.apply_async(fn, args, kwds) / submit(fn, *a, **k) / view.apply_async(fn, *a, **k)), so completion order does not occur in the contract; the flat result is in grid order and the nested result satisfies Rep: position (i1..iK) holds the value returned for (values1[i1]..valuesK[iK]); split is per component; duplicate values raise.",
          "assumed: itertools.product (each tuple once, prefix-closed), random.seed/shuffle = a permutation determined by (seed, n), sorted+lemma SortedPermOfRange, executor/future contract (each submitted task invokes fn exactly once; result()/get() return that invocation's value), tuple/dict theory axioms, parallel=... 'ray' executor outside the subset; the cases branch of the core is C02's variant; fn is an arbitrary callable (may raise)"),
+ "C02": ("Discharged for all inputs: parse_cases / parse_fn_args / case_runner normalise dict, tuple and scalar-per-case spellings to the same tuple of dicts and forward them unchanged to the core; an argument appearing in both cases and combos raises ValueError if and only if the name sets overlap, before the call log changes (nothing runs); _unflatten fills every grid position whose key is absent from the computed results with the placeholder (Rep with default all_nan); nan_like_result gives None for bool/str, full_like(nan) for dict/Dataset/DataArray, a tuple of nan arrays shaped by infer_shape per element for sequences and nan otherwise. BOUNDED (not proved): the enumeration cases x sub-grid, the per-argument unions and the placeholder shape recursion of infer_shape are exercised by replay/C02.py on the real code (random distinct case sets over 1-3 arguments, 5 result kinds, shuffle on/off; nested shapes to depth 3 / width 3) as part of the quick check.",
+         "assumed: isiterable model, xarray.full_like / numpy.broadcast_to as uninterpreted functions (broadcast_to assumed not to raise), dict-comprehension keys distinct; the cases branch of combo_runner_core has no loop invariants yet, so its calls/slots/unions claim is bounded only and is not counted in discharged"),
  "C07": ("Every VC generated from the real bodies of Crop.choose_batch_settings, Sower.__init__/__call__/save_batch/__exit__ is discharged: size mode gives rem=0 and (nb-1)*bs < N <= nb*bs, count mode gives nb=min(k,N), bs*nb+rem=N, 0<=rem<nb; the Sower object invariant (batch j on disk = stream[offset(j):offset(j)+size(j)]) is preserved by every call, and __exit__ leaves exactly nb non-empty batches covering the stream. Integers are Python ints = mathematical, so the statement's 'N<=48' becomes 'all N'.",
          "assumed: functools.reduce/prod = product of lengths (definition of NCombos), math.ceil(a/b) exact for a<2**53, write_to_disk caller-side contract (its body is the subject of C10/C11), pickle round trip, path-template injectivity axioms, induction over the call sequence (Sower invariant => final partition) is a meta-theorem; that the stream the Sower receives equals the direct run's kwargs is C01/C04's obligation"),
  "C09": ("Reaper._load is verified against the statement: a missing result with allow_incomplete yields a placeholder tuple of exactly the sown batch's length filled with the default, an existing result is returned as stored, and an empty one raises; check_ready_to_reap raises XYZError iff not (allow_incomplete or wait or ready) with the file system untouched; calc_clean_up_default_res gives clean_up = not allow_incomplete by default and a default result iff allow_incomplete (sentinel, so bool/str crops work); reap_combos forwards exactly the saved combos/cases/shuffle and only deletes when clean_up.",
